@@ -404,6 +404,51 @@ func FamilyError(thorough bool) []*Conv {
 			out = append(out, cv)
 		}
 	}
+	// embedded struct fields are ordinary path elements (named after the embedded type)
+	for _, wrap := range []string{"", "_wrap", "_using"} {
+		for fi, f := range []string{"struct", "function", "variable"} {
+			cv := &Conv{
+				ID: "error/extend/embedded_target_field/" + f + wrap, Family: "error", Format: f,
+				Params: "source PFXRowS", Results: "(PFXRowT, error)",
+				Decls: "type PFXA int\ntype PFXB int\nfunc PFXExt(a PFXA) (PFXB, error) { return 0, nil }\n" +
+					"type PFXBaseS struct {\n\tAge PFXA\n\tL []PFXA\n}\ntype PFXBaseT struct {\n\tAge PFXB\n\tL []PFXB\n}\ntype PFXRowS struct {\n\tPFXBaseS\n\tN int\n}\ntype PFXRowT struct {\n\tPFXBaseT\n\tN int\n}\n",
+				ConvLines:   []string{"extend PFXExt"},
+				MethodLines: []string{"map PFXBaseS PFXBaseT"},
+				Spec: &Spec{Custom: map[string]string{"PFXA→PFXB": "PFXExt"}, Pairs: map[string]*PairSpec{"PFXRowS→PFXRowT": {Fields: map[string]*FieldSpec{"PFXBaseT": {Path: []string{"PFXBaseS"}}}}}},
+				Bounds: &Bounds{MaxSlice: 2, MaxMap: 1, RecDepth: 1},
+			}
+			switch wrap {
+			case "_wrap":
+				cv.Spec.WrapMode = "wrap"
+				cv.ConvLines = append(cv.ConvLines, "wrapErrors")
+			case "_using":
+				cv.Spec.WrapMode = "using"
+				cv.ConvLines = append(cv.ConvLines, "wrapErrorsUsing corpus/perr")
+			}
+			_ = fi
+			out = append(out, cv)
+		}
+	}
+	// a second declared method reuses a helper (pointer to a recursive struct) that gains its error result only
+	// while the first declared method is built: both declared methods are rebuilt
+	for fi, f := range []string{"struct", "function", "variable"} {
+		extra := "\tZPFXMore(source []*PFXInner) ([]*PFXInnerT, error)\n"
+		if f == "variable" {
+			extra = "\tZPFXMore func(source []*PFXInner) ([]*PFXInnerT, error)\n"
+		}
+		cv := &Conv{
+			ID: "error/extend/recp_two_declared/" + f, Family: "error", Format: f, Solo: true,
+			Params: "source PFXOuter", Results: "(PFXOuterT, error)",
+			Decls: "type PFXA int\ntype PFXB int\nfunc PFXExt(a PFXA) (PFXB, error) { return 0, nil }\n" +
+				"type PFXInner struct {\n\tSelf *PFXInner\n\tVal PFXA\n}\ntype PFXInnerT struct {\n\tSelf *PFXInnerT\n\tVal PFXB\n}\ntype PFXOuter struct{ I PFXInner }\ntype PFXOuterT struct{ I PFXInnerT }\n",
+			ConvLines:    []string{"extend PFXExt"},
+			ExtraMethods: extra,
+			Spec:         &Spec{Custom: map[string]string{"PFXA→PFXB": "PFXExt"}},
+			Bounds:       &Bounds{MaxSlice: 1, MaxMap: 1, RecDepth: 2},
+		}
+		_ = fi
+		out = append(out, cv)
+	}
 	// a declared method without error result cannot use a fallible function: must fail
 	for _, cl := range leaves[:2] {
 		for _, sn := range []string{"", "slice", "struct"} {
